@@ -29,7 +29,7 @@ Next ==
      ELSE LET ev == sc.events[l]  bad == Failed(Clauses(W, S, ev)) IN
           IF bad = {}
           THEN /\ S' = Effect(W, S, ev) /\ l' = l + 1 /\ sid' = sid /\ Count(2)
-          ELSE Verdict(<<sc.id, "FAIL", l, ev.op, bad>>) /\ NextScenario
+          ELSE Verdict(<<sc.id, "FAIL", l, ev.op, bad, Diag(W, S, ev)>>) /\ NextScenario
 
 Done == /\ PrintT(<<"VERDICTS", TLCGet(1)>>)
         /\ PrintT(<<"EVENTS_ACCEPTED", TLCGet(2)>>)
